@@ -40,7 +40,15 @@ SKP = "wannierberri/system/system_kp.py"
 DKKF = "wannierberri/data_K/data_K_k.py"
 KNB = "wannierberri/wannierisation/kpoint_and_neighbours.py"
 WANF = "wannierberri/wannierisation/wannierise.py"
+ORBF = "wannierberri/symmetry/orbitals.py"
 MUTANTS = [
+    dict(prop="C21", name="d shell: x2-y2 row with a plus", file=ORBF, old="                orb_rot_mat[3, i] = (subs[3] - subs[5]).evalf()", new="                orb_rot_mat[3, i] = (subs[3] + subs[5]).evalf()"),
+    dict(prop="C21", name="p shell: x and y rows swapped", file=ORBF, old="                orb_rot_mat[1, i] = subs[1].evalf()\n                orb_rot_mat[2, i] = subs[2].evalf()\n            elif orb_symbol == 'd':", new="                orb_rot_mat[2, i] = subs[1].evalf()\n                orb_rot_mat[1, i] = subs[2].evalf()\n            elif orb_symbol == 'd':"),
+    dict(prop="C21", name="rotated coordinates without the inverse (composition order reversed)", file=ORBF, old="        xp, yp, zp = np.dot(np.linalg.inv(rot_glb), self.xyz)", new="        xp, yp, zp = np.dot(rot_glb, self.xyz)"),
+    dict(prop="C21", name="d shell: z2 normalisation", file=ORBF, old="                orb_rot_mat[0, i] = (2 * subs[0] - subs[3] - subs[5]) / sympy.sqrt(3.0)", new="                orb_rot_mat[0, i] = (2 * subs[0] - subs[3] - subs[5]) / sympy.sqrt(2.0)"),
+    dict(prop="C21", name="hybrids: shell blocks placed with an offset error", file=ORBF, old="                rot_orb_loc[s:e, s:e] = self.rot_orb_basis(shell, rot_glb)", new="                rot_orb_loc[s:e, s:e] = self.rot_orb_basis(shell, rot_glb).T"),
+    dict(prop="C21", name="OrbitalRotator: local bases swapped", file=ORBF, old="                rot_cart = basis2 @ rot_cart @ basis1.T", new="                rot_cart = basis1 @ rot_cart @ basis2.T"),
+    dict(prop="C21", name="OrbitalRotator: cache keyed by shell only", file=ORBF, old="        if (irot, orb_symbol) not in self.results_dict:\n            orb_symbol = orb_symbol.strip()", new="        if (0, orb_symbol) in self.results_dict:\n            return self.results_dict[(0, orb_symbol)]\n        if (irot, orb_symbol) not in self.results_dict:\n            orb_symbol = orb_symbol.strip()"),
     dict(prop="C24", name="nWfree ignores the frozen bands", file=KNB, old="        self.nWfree = self.num_wann - sum(frozen)", new="        self.nWfree = self.num_wann - 0 * sum(frozen)"),
     dict(prop="C24", name="rotate_to_projections: free block placed from column 0", file=KNB, old="        U[self.free, self.nfrozen:] = U_opt_free\n        U_loc = U[self.selected, :].copy()", new="        U[self.free, :self.num_wann - self.nfrozen] = U_opt_free\n        U_loc = U[self.selected, :].copy()"),
     dict(prop="C24", name="rotate_to_projections: result written to all bands", file=KNB, old="        U[:] = 0\n        U[self.selected] = U_loc.dot(ZV)", new="        U[:] = 0\n        U[-U_loc.shape[0]:] = U_loc.dot(ZV)"),
